@@ -116,4 +116,70 @@ def suite_signatures(ctx):
     return s
 
 
-SUITES = [suite_hist, suite_signatures]
+def suite_algo_switch(ctx):
+    """one client, several unlocks, the configured algorithm / its parameters replaced in between (client.config[...] = ..., set_config):
+    every unlock must call the algorithm configured *now*, once, with the seed, the level as passed and the params configured now"""
+    from .. import clientlib as cl
+    s = Suite('algo_switch')
+    rng = ctx.rng
+    calls = []
+
+    def mk(sig, tag):
+        if sig == 's':
+            def f(seed):
+                calls.append((tag, seed, None, None)); return tag + seed
+        elif sig == 'sl':
+            def f(seed, level):
+                calls.append((tag, seed, level, None)); return tag + seed
+        elif sig == 'sp':
+            def f(seed, params):
+                calls.append((tag, seed, None, params)); return tag + seed
+        elif sig == 'slp':
+            def f(seed, level, params):
+                calls.append((tag, seed, level, params)); return tag + seed
+        else:
+            class O:
+                def __call__(self, seed, level, params):
+                    calls.append((tag, seed, level, params)); return tag + seed
+            f = O()
+        return f
+    for _ in range(ctx.n(150, 3000)):
+        client, conn = cl.make_client(cl.Cfg(exc=tuple(rng.random() < 0.7 for _ in range(3))), extra={'security_algo': None, 'security_algo_params': None})
+        hist_desc = []
+        for step in range(rng.randrange(2, 6)):
+            sig = rng.choice(['s', 'sl', 'sp', 'slp', 'obj'])
+            tag = bytes([0x41 + step])
+            params = rng.choice([None, b'\x01', {'k': step}])
+            algo = mk(sig, tag)
+            if rng.random() < 0.5:
+                client.config['security_algo'] = algo
+                client.config['security_algo_params'] = params
+                how_set = 'config[]'
+            else:
+                client.set_configs({'security_algo': algo, 'security_algo_params': params})
+                how_set = 'set_configs'
+            level = rng.choice([1, 2, 3, 0x10, 0x7D, 0x7E])
+            seed = bytes(rng.randrange(1, 256) for _ in range(rng.choice([1, 4, 8])))
+            conn.responder = lambda p, seed=seed: [(1, bytes([0x67, p[1]]) + (seed if p[1] % 2 == 1 else b''))]
+            del calls[:]
+            how, verdict, flags, payload, e, r = cl.observe_outer(conn, lambda: client.unlock_security_access(level))
+            sends = [o[1] for o in conn.log if o[0] == 'send']
+            hist_desc.append('%s:%s level=%d via %s' % (sig, tag.decode(), level, how_set))
+            k = (level + 1) // 2
+            want = [bytes([0x27, 2 * k - 1]), bytes([0x27, 2 * k]) + tag + seed]
+            s.evaluations += 1
+            s.distinct.add('|'.join(hist_desc))
+            rec = {'site': 'unlock_security_access after algorithm change', 'input': ' ; '.join(hist_desc), 'seed': seed.hex()}
+            exp_call = (tag, seed, level if 'l' in sig or sig == 'obj' else None, params if 'p' in sig or sig == 'obj' else None)
+            if sends != want or verdict != 'ok':
+                s.fail(dict(rec, observed='%s %s' % (verdict, [x.hex() for x in sends]), required=[x.hex() for x in want]))
+                break
+            if calls != [exp_call]:
+                s.fail(dict(rec, observed=str(calls), required='exactly one call %s' % (exp_call,)))
+                break
+            s.count('sig=' + sig)
+    s.sample({'history': 'sl:A level=3 via config[] ; s:B level=4 via set_configs', 'required': 'each unlock calls the algorithm configured at that moment'})
+    return s
+
+
+SUITES = [suite_hist, suite_signatures, suite_algo_switch]
